@@ -2,6 +2,8 @@ package rules
 
 import (
 	"fmt"
+	"sort"
+	"strconv"
 	"go/token"
 	"strings"
 
@@ -24,7 +26,7 @@ func init() {
 			"proceeds to rate limiting. The single exception is the FORMERR answer for a malformed ECS option, which " +
 			"C05 demands and which is written before any access decision.",
 		NotCovered: "what the urlfilter engines behind IsBlockedHost / blockedHostsEng match; effects inside third-party libraries reached from the access decision.",
-		Rules: map[string]string{"C10-R18": "geoip.File.Refresh clears both location caches after it has installed the new databases (shared with C05-R10)", "C10-R16": "no call in package dnsserver passes same-typed arguments crossed (local and remote address of a connection, by the names of the getters that produced them)", "C10-R17": "builder.initAccess creates and assigns the global access manager on every successful path, empty lists included (a nil *access.Global wrapped in the service's interface field panics on the first request)", "C10-R14": "conversion loops of backendpb and filecachepb leave no element out silently (a skipped element has been reported or failed a conversion)", "C10-R15": "GeoIP data is looked up and cached under one read lock, so a refresh cannot leave a location of the previous database in the cache (shared with C05-R7)", "C10-R13": "newRequestInfo always stores the finder's answer; methods of the shared access objects do not write to their receiver", "C10-RC": "class rules (error chains, shadowed results, character classes, crossed arguments, pool constructors, array pools, loop completeness, loop-carried buffers, replacing setters, complete clones, Grow arithmetic, pooled-buffer escape, sorted searches, fresh decode targets, per-iteration objects, whole-message copies, codec guards) over the packages this property rests on", "C10-R12": "agdnet.NormalizeDomain is ToLower(TrimSuffix(name, \".\")); hand-written ASCII classes use inclusive boundaries", "C10-R11": "early (default) returns of the profile converters are guarded only by nil / Enabled tests of the input, never by its contents", "C10-R10": "codecs return a nil sub-message only for a nil input; access.Global keeps the whole configured subnet list and IsBlockedIP is a membership test on it",
+		Rules: map[string]string{"C10-R20": "agdnet.NormalizeQueryDomain keeps the root name \".\" as it is (decided on the argument itself, before any normalisation empties it) and normalises every other name", "C10-R19": "the name handed to the global blocked-name rules (access.Interface.IsBlockedHost) is the question name normalised by agdnet.NormalizeQueryDomain, as for the profile's rules: the root stays \".\" (the empty string that NormalizeDomain makes of it matches no rule)", "C10-R18": "geoip.File.Refresh clears both location caches after it has installed the new databases (shared with C05-R10)", "C10-R16": "no call in package dnsserver passes same-typed arguments crossed (local and remote address of a connection, by the names of the getters that produced them)", "C10-R17": "builder.initAccess creates and assigns the global access manager on every successful path, empty lists included (a nil *access.Global wrapped in the service's interface field panics on the first request)", "C10-R14": "conversion loops of backendpb and filecachepb leave no element out silently (a skipped element has been reported or failed a conversion)", "C10-R15": "GeoIP data is looked up and cached under one read lock, so a refresh cannot leave a location of the previous database in the cache (shared with C05-R7)", "C10-R13": "newRequestInfo always stores the finder's answer; methods of the shared access objects do not write to their receiver", "C10-RC": "class rules (error chains, shadowed results, character classes, crossed arguments, pool constructors, array pools, loop completeness, loop-carried buffers, replacing setters, complete clones, Grow arithmetic, pooled-buffer escape, sorted searches, fresh decode targets, per-iteration objects, whole-message copies, codec guards) over the packages this property rests on", "C10-R12": "agdnet.NormalizeDomain is ToLower(TrimSuffix(name, \".\")); hand-written ASCII classes use inclusive boundaries", "C10-R11": "early (default) returns of the profile converters are guarded only by nil / Enabled tests of the input, never by its contents", "C10-R10": "codecs return a nil sub-message only for a nil input; access.Global keeps the whole configured subnet list and IsBlockedIP is a membership test on it",
 			"C10-R1": "decision tables of isBlockedByNets, matchASNs, IsBlocked, isBlockedByAccess",
 			"C10-R2": "Wrap closure: location stored before the decision; blocked edge silent; other edge proceeds",
 			"C10-R4": "question names are normalised before they are matched against access rules",
@@ -34,6 +36,35 @@ func init() {
 }
 
 func runC10(c *an.Ctx) {
+	// ---- R20: the root name survives the query normaliser
+	c.Floor("C10-R20", 1)
+	decide(c, "C10-R20", "agdnet.NormalizeQueryDomain", an.DecideCfg{
+		Dom: an.Domain{"p0": an.Strs(".", "Example.ORG.", "")},
+		OnCall: func(it *an.Interp, name string, args []an.AV) (an.AV, bool) {
+			if name == "agdnet.NormalizeDomain" {
+				// lower-cased, final dot removed: the root becomes the empty string
+				switch args[0].String() {
+				case `"."`, `""`:
+					return an.CStr(""), true
+				case `"Example.ORG."`:
+					return an.CStr("example.org"), true
+				}
+				return an.Sym("normalised(" + args[0].String() + ")"), true
+			}
+			return an.AV{}, false
+		},
+		Expect: func(f an.Features, o an.AOutcome) string {
+			want := map[string]string{".": `"."`, "Example.ORG.": `"example.org"`, "": `""`}[f.S("p0")]
+			if o.RetString() == want {
+				return ""
+			}
+			return want + " for " + strconv.Quote(f.S("p0"))
+		},
+	})
+	// ---- R19: the global blocked-name rules are asked about the question's name with the root kept as "."
+	if n := c10GlobalHostNormalised(c, "C10-R19"); n < 1 {
+		c.Und("C10-R19", "host argument of the global blocked-name check", token.NoPos, "no call of access.Interface.IsBlockedHost found")
+	}
 	classSweep(c, "C10")
 	// ---- R18: a GeoIP refresh empties the per-network location cache, so ASN rules are applied to the new data (shared with C05-R10)
 	c.Floor("C10-R18", 2)
@@ -234,7 +265,8 @@ func runC10(c *an.Ctx) {
 				}
 				return an.Sym("IsBlockedIP called with " + args[0].String()), true
 			case name == "p0.accessManager.IsBlockedHost":
-				if len(args) == 2 && args[0].String() == "p2.Host" && args[1].String() == "p2.QType" {
+				// the question's own name, normalised with the root kept (R19 decides the normaliser), and its type
+				if len(args) == 2 && args[0].String() == "agdnet.NormalizeQueryDomain(p3.Question[0].Name)" && args[1].String() == "p2.QType" {
 					return it.Feature("ghost"), true
 				}
 				return an.Sym("IsBlockedHost called with unexpected arguments"), true
@@ -663,4 +695,56 @@ func c10DeviceResultSet(c *an.Ctx) {
 	c.Check(!leak, "C10-R13", k+" always records the device result", fn.Pos(),
 		"every path from the finder's answer to the return stores it into RequestInfo.DeviceResult",
 		"a path returns without storing the finder's answer: the request is treated as profile-less and the profile's access settings are not applied")
+}
+
+// c10GlobalHostNormalised: urlfilter matches nothing for an empty host name.
+// agdnet.NormalizeDomain turns the root name "." into "", NormalizeQueryDomain
+// keeps it: the profile's blocked-name engine uses the latter on the question
+// name.  The host argument of every IsBlockedHost call on the access manager is
+// walked back; every source must be a result of NormalizeQueryDomain.
+func c10GlobalHostNormalised(c *an.Ctx, rule string) (sites int) {
+	for _, fn := range c.AllFns {
+		if fn.Blocks == nil || c.IsTestFile(fn.Pos()) || !c.Prog.InRepo(fn) {
+			continue
+		}
+		inFn := 0
+		for _, call := range an.Calls(fn) {
+			cc := call.Common()
+			if !cc.IsInvoke() || cc.Method.Name() != "IsBlockedHost" || !strings.HasSuffix(cc.Value.Type().String(), "internal/access.Interface") || len(cc.Args) < 1 {
+				continue
+			}
+			sites++
+			inFn++
+			c.Analysed(an.FnKey(fn))
+			good := 0
+			var bad []string
+			w := &an.Walker{P: c.Prog,
+				Visit: func(v ssa.Value) bool {
+					if x, ok := v.(*ssa.Call); ok {
+						switch n := an.CalleeName(x); {
+						case strings.HasSuffix(n, "agdnet.NormalizeQueryDomain"):
+							good++
+							return true
+						case strings.HasSuffix(n, "agdnet.NormalizeDomain"), n == "strings.ToLower", n == "strings.TrimSuffix":
+							bad = append(bad, fmt.Sprintf("%s at %s", an.Short(n), c.Pos(x.Pos())))
+							return true
+						}
+					}
+					return false
+				},
+				Leaf: func(v ssa.Value, why string) {
+					if _, isConst := v.(*ssa.Const); isConst {
+						return
+					}
+					bad = append(bad, fmt.Sprintf("%s (%s)", v.String(), why))
+				},
+			}
+			w.Walk(cc.Args[0])
+			sort.Strings(bad)
+			c.Check(good > 0 && len(bad) == 0, rule, fmt.Sprintf("%s: global blocked-name check %d is asked about the name with the root kept", an.FnKey(fn), inFn), call.Pos(),
+				"the host argument is a result of agdnet.NormalizeQueryDomain",
+				"the host argument comes from "+strings.Join(bad, ", ")+", not from agdnet.NormalizeQueryDomain: for a question about the root the global rules are asked about the empty name, which matches nothing, while the profile's rules are asked about \".\"")
+		}
+	}
+	return sites
 }
